@@ -64,6 +64,16 @@ def _eval(prog, fn, n, val, depth=0):
             return val['sender'] if op == '==' else not val['sender']
         if fields == {'_targetCompID'}:
             return val['target'] if op == '==' else not val['target']
+    if s.k == 'CXXMemberCallExpr' and (s.callee_qp or '').startswith(SID) and depth < 3 and len(s.args) == 1:
+        # a bool helper of SessionID comparing its argument with the own CompID (same_side_sender_comp_id ...): inline its single return,
+        # provided the argument is the other identity's field of the same name
+        other = prog.fns(s.callee_qp)
+        if other:
+            rets = [x for x in other[0].all_nodes() if x.k == 'ReturnStmt']
+            own = {x.decl['n'] for x in other[0].all_nodes() if x.k == 'MemberExpr' and x.decl and x.decl.get('k') == 'Field'}
+            passed = {x.decl['n'] for x in s.args[0].walk() if x.k == 'MemberExpr' and x.decl and x.decl.get('k') == 'Field'}
+            if len(rets) == 1 and len(own) == 1 and passed == own:
+                return _eval(prog, other[0], rets[0].children[0], val, depth + 1)
     raise AnalysisBroken('unclassified atom in SessionID comparison: %s at %s' % (s.text(), s.loc))
 
 
@@ -216,6 +226,13 @@ def run(ctx):
                 p = cfg.path(q.atom_edge(cfg, br2, True)[0], lambda x: x == gv, avoid=ones)
                 ctx.check(p is None and bool(ones), 'R23.2', S + 'handle_logon#reset.%s' % tag, br2[1].loc,
                           'ResetSeqNumFlag=Y: %s counter := 1 on every path to the Logon answer' % tag)
+                # ... and stays 1: no other store to the counter between the reset and the answer
+                others = [w for (w, m) in q.member_writes(fn, member) if cfg.has_vertex(w) and cfg.vertex_of(w) not in ones]
+                late = [w for w in others if any(cfg.vertex_of(w) in cfg.reach_from(o) for o in ones) and gv in cfg.reach_from(cfg.vertex_of(w))]
+                ctx.check(not late, 'R23.2', S + 'handle_logon#reset.%s.final' % tag, br2[1].loc,
+                          'ResetSeqNumFlag=Y: nothing overwrites the %s counter between the reset to 1 and the Logon answer' % tag,
+                          'after the ResetSeqNumFlag=Y reset the %s counter is stored again at %s (`%s`) before the answer is sent: an acceptor started with explicit '
+                          'sequence numbers ignores the reset' % (tag, late[0].loc if late else '', late[0].text() if late else ''))
             recs = q.verts(cfg, fn.calls_to(S + 'recover_seqnums'))
             p = cfg.path(q.atom_edge(cfg, br2, False)[0], lambda x: x == gv, avoid=recs)
             ctx.check(p is None and bool(recs), 'R23.2', S + 'handle_logon#noreset.recover', br2[1].loc,
